@@ -222,7 +222,7 @@ def validate(func, *args, **kwds):
         raise TypeError("%s() got an unexpected keyword argument '%s'" % (func.__name__,p_varkwds.pop()))
 
     # FAIL if partial built for *args, but *args not used in func.func
-    p_varargs = max(0, len(p_args) - len(p_required))
+    p_varargs = max(0, len(p_args) - len(p_named)) # positionals beyond all named
     if p_varargs and not hasargs:
         raise TypeError("%s() takes at most %d arguments (%d given)" % (func.__name__, len(p_named), len(p_args)+len(args)+len(kwds)))
 
